@@ -150,18 +150,8 @@ second witness has all stamps equal.) -/
 theorem lcas_exact_partial (g : Graph) (hwf : g.WF) (hmono : g.StrictMono) (c1 : Nat) (c2s : List Nat)
     (h1 : c1 < g.n) (h2 : ∀ c, c ∈ c2s → c < g.n) (minStamp : Int) (hcut : ∀ z, minStamp ≤ g.ts z)
     (fuel : Nat) (r : List Nat) (h : findLcasFuel fuel g c1 c2s minStamp = .ok r) :
-    (∀ x, x ∈ r ↔ MaxCA g c1 c2s x) ∧ r.Nodup := by
-  obtain ⟨s, res, hs, hres, rfl⟩ := findLcasFuel_ok h
-  obtain ⟨hinv, hnc⟩ := loop_all (m := minStamp) hwf h1 h2 hs
-  have hord := loop_ordered (m := minStamp) hwf hmono h1 h2 hs
-  have hcut' : ∀ z, ¬ g.ts z < minStamp := fun z => Int.not_lt.mpr (hcut z)
-  refine ⟨fun x => ?_, result_nodup hres hinv.cand.nodup⟩
-  rw [mem_result hres]
-  constructor
-  · rintro ⟨dt, f, hc, hf, hd⟩
-    exact final_cand_max hmono hcut' hinv.dom hinv.sound hinv.live hord hc hf hd
-  · intro hx
-    exact final_has_max hinv.sound hinv.live hnc hx (fun y _ => hcut' y)
+    (∀ x, x ∈ r ↔ MaxCA g c1 c2s x) ∧ r.Nodup :=
+  findLcasFuel_exact hwf hmono h1 h2 hcut h
 
 /-- `find_merge_base` returns exactly the graph-theoretic merge bases when stamps are non-negative and strictly
 increase from parent to child. -/
@@ -241,6 +231,22 @@ theorem ff_exact_partial (g : Graph) (hwf : g.WF) (hmono : g.StrictMono) (c1 c2 
             · exact h hlt
         have := eq_singleton_of_nodup (result_nodup hres hinv.cand.nodup) hin hall
         simp [this]
+
+/-- The property as worded for independence filtering: on every closed history with non-negative stamps
+`independent` returns exactly the ids not reachable from another (different) id.  **False** for the unchanged
+code (`ff_equal_stamps_counterexample`, `independent_duplicate_counterexample`). -/
+def IndependentExactStatement : Prop :=
+  ∀ (g : Graph), g.WF → (∀ z, 0 ≤ g.ts z) → ∀ (ids : List Nat), (∀ c, c ∈ ids → c < g.n) →
+    ∀ r, independent g ids = .ok r → ∀ x, x ∈ r ↔ x ∈ ids ∧ ¬ ∃ o, o ∈ ids ∧ o ≠ x ∧ Anc g x o
+
+/-- `independent` is exact — the survivors are exactly the ids that are not reachable from another one of the
+ids, kept in input order — when stamps are non-negative and strictly increase from parent to child and the ids
+are pairwise distinct (an id given twice is dropped altogether: `independent_duplicate_counterexample`). -/
+theorem independent_exact_partial (g : Graph) (hwf : g.WF) (hmono : g.StrictMono) (hpos : ∀ z, 0 ≤ g.ts z)
+    (ids : List Nat) (hids : ∀ c, c ∈ ids → c < g.n) (hnd : ids.Nodup) (r : List Nat)
+    (h : independent g ids = .ok r) :
+    r.Sublist ids ∧ ∀ x, x ∈ r ↔ x ∈ ids ∧ ¬ ∃ o, o ∈ ids ∧ o ≠ x ∧ Anc g x o :=
+  independent_exact hwf hmono hpos hids hnd h
 
 /-! ## 5. history walks -/
 
@@ -346,5 +352,63 @@ theorem lca_nonmaximal_counterexample :
 theorem ff_equal_stamps_counterexample :
     canFastForward diamond4 2 3 = .ok false ∧ independent diamond4 [2, 3] = .ok [2, 3] := by
   decide
+
+theorem chain3_wf : chain3.WF := by unfold Graph.WF; decide
+theorem diamond4_wf : diamond4.WF := by unfold Graph.WF; decide
+
+/-- the fast-forward statement as worded is false for the unchanged code -/
+theorem ff_exact_fails : ¬ FfExactStatement := by
+  intro h
+  have := (h chain3 chain3_wf 0 2 (by decide) (by decide) false ff_skew_counterexample.1).mpr
+    ff_skew_counterexample.2
+  cases this
+
+/-- the merge-base statement as worded is false for the unchanged code -/
+theorem merge_base_exact_fails : ¬ MergeBaseExactStatement := by
+  intro h
+  have := (h diamond4 diamond4_wf (ofLists_nonneg _ _ (by decide)) 2 3 [] (by decide) (by decide) [0, 2]
+    lca_nonmaximal_counterexample.1 0).mp (by simp)
+  exact lca_nonmaximal_counterexample.2 this
+
+/-- `r←x←y`, `a` on `x`, `b` on `y`, `c1 = c2 = merge(a, b)`, `c3` on `y`; commits numbered
+`r=0 x=1 y=2 a=3 b=4 c1=5 c2=6 c3=7`, stamps strictly increasing -/
+def octo8 : Graph := Graph.ofLists [[], [0], [1], [1], [2], [3, 4], [3, 4], [2]] [0, 1, 2, 3, 4, 5, 6, 7]
+
+/-- `find_octopus_base([c1, c2, c3])` folds pairwise merge bases (`{a, b}` then `lcas(c3, a) ∪ lcas(c3, b)`)
+and reports `[x, y]` although `x` is the parent of `y` — with strictly increasing stamps, so this defect is
+independent of the clock (git reduces the union with `reduce_heads`). -/
+theorem octopus_fold_counterexample :
+    findOctopusBase octo8 [5, 6, 7] = .ok [1, 2] ∧ octo8.StrictMono ∧ 1 ∈ octo8.parents 2 := by
+  refine ⟨by decide, ofLists_strictMono _ _ (by decide), by decide⟩
+
+/-- `independent([A, A])` is empty: an id listed twice is dropped altogether. -/
+theorem independent_duplicate_counterexample :
+    independent (Graph.ofLists [[], [0]] [0, 1]) [1, 1] = .ok [] := by decide
+
+/-! ## non-vacuity: the hypotheses of the theorems hold on non-trivial histories -/
+
+/-- criss-cross: 1 and 2 on 0; 3 and 4 both merge 1 and 2 -/
+def cross5 : Graph := Graph.ofLists [[], [0], [0], [1, 2], [1, 2]] [0, 1, 2, 3, 4]
+
+example : cross5.WF ∧ cross5.StrictMono ∧ (∀ z, 0 ≤ cross5.ts z) ∧
+    findMergeBase cross5 [3, 4] = .ok [1, 2] ∧ canFastForward cross5 1 4 = .ok true ∧
+    canFastForward cross5 3 4 = .ok false ∧ independent cross5 [0, 1, 3, 4] = .ok [3, 4] :=
+  ⟨by unfold Graph.WF; decide, ofLists_strictMono _ _ (by decide), ofLists_nonneg _ _ (by decide),
+   by decide, by decide, by decide, by decide⟩
+
+/-- hypotheses of `flags_sound` / `lcas_complete` on a skewed history where the answer is still exact -/
+example : findLcas chain3 2 [1] 0 = .ok [1] ∧ chain3.WF := ⟨by decide, chain3_wf⟩
+
+/-- walks: date order and topo order on the criss-cross with all stamps equal (ties by id) -/
+example : Walk.walk (Graph.ofLists [[], [0], [0], [1, 2], [1, 2]] [7, 7, 7, 7, 7])
+      { incl := [3, 4], excl := [], topo := false, reverse := false, maxEntries := none, since := none,
+        untl := none } = some [3, 1, 0, 2, 4] ∧
+    Walk.walk (Graph.ofLists [[], [0], [0], [1, 2], [1, 2]] [7, 7, 7, 7, 7])
+      { incl := [3, 4], excl := [], topo := true, reverse := false, maxEntries := none, since := none,
+        untl := none } = some [3, 4, 2, 1, 0] := by
+  decide
+
+/-- `_topo_reorder` on an order that lists a parent first -/
+example : Walk.topoReorder cross5.parents [0, 3, 1, 4, 2] = some [3, 4, 1, 2, 0] := by decide
 
 end Dulwich.Props.C13
